@@ -407,7 +407,7 @@ func (r *run) step(mu *mutant, via string, mustAccept bool, msgs []common.Uint25
 			accepted = true
 		}
 	}
-	if x.Quick() || true {
+	if exp == "reject" || exp == "ignore" {
 		x.Sample(map[string]interface{}{"cfg": r.cf, "mutation": mu.Name, "resigned": mu.Resign, "via": via, "expected": exp, "error": fmt.Sprint(err)})
 	}
 	// correspondence record
@@ -701,6 +701,8 @@ func ioFaultProbe(x *hx.Ctx, idx int) {
 		return
 	}
 	after := memDigest(c.k)
+	delete(before, "db.states") // the state database is closed: it cannot be read any more
+	delete(after, "db.states")
 	changed := diffDigest(before, after)
 	// the same valid block offered again
 	p, msg = hx.Recover(func() { serr2 = l.SubmitBlock(cloneBlock(v), nil, res) })
